@@ -58,16 +58,21 @@ def getEls (j : Json) : Except String (Option (List El)) := do
   | none => return some (← (← getArr j "els").mapM parseEl)
   | some c =>
     let embed ← parseSpFid c "embed"
-    let extraOrder ← getStrs c "extraOrder"
+    let extraOrder := (getStrs c "extraOrder").toOption
     let extra ← parseMetaTable c "speciesExtra"
     let builtin ← parseMetaTable c "speciesBuiltin"
     let spMeta := resolveMeta extra builtin
     if ← getBool c "fs" then
       let dens ← (← getArr c "densFS").mapM fun p => do
         return (← getStr p "from", ← getStr p "to", ← getNat p "fid")
-      return eamBuildFS embed dens extraOrder spMeta
+      return match extraOrder with
+        | some o => eamBuildFSWith embed dens o spMeta     -- shipped behaviour under a given set iteration order
+        | none => eamBuildFS embed dens spMeta
     else
-      return eamBuild embed (← parseSpFid c "dens") extraOrder spMeta
+      let dens ← parseSpFid c "dens"
+      return match extraOrder with
+        | some o => eamBuildWith embed dens o spMeta
+        | none => eamBuild embed dens spMeta
 
 def slotsJ (l : List Slot) : Json := arrJ (l.map slotJ)
 
